@@ -219,7 +219,8 @@ Proof.
   - cbn [fst snd]. intros E Hin.
     assert (E' : nget (nset (d_regs d) (idgen_next (d_idgen d))
                             (mkReg (idgen_next (d_idgen d)) proc (opt_string opts "match") (opt_string opts "invoke")
-                                   (opt_bool opts "disclose_caller") (opt_bool opts "forward_timeout") 0 [s_id callee])) rid = Some rg').
+                                   (if opt_bool opts "disclose_caller" then [s_id callee] else [])
+                                   (opt_bool opts "forward_timeout") 0 [s_id callee])) rid = Some rg').
     { destruct (mkind_of (opt_string opts "match")); exact E. }
     rewrite ngs in E'. destruct (N.eqb_spec rid (idgen_next (d_idgen d))) as [->|Hn]; [|eauto].
     inversion E'; subst rg'. cbn [reg_callees] in Hin. destruct Hin as [<-|[]]. right. split; [reflexivity|now left].
@@ -407,7 +408,7 @@ Proof.
     { intros rid rg' y H Hin. rewrite cfs_regs in H. rewrite ngs in H.
       destruct (N.eqb_spec rid (reg_id r)) as [->|Hn]; [|eauto].
       inversion H; subst rg'. exists r. split; [auto|exact Hin]. }
-    exists cid0, (idgen_next (s_invgen callee)), (reg_id r), (call_details cfg caller callee r opts proc).
+    exists cid0, (idgen_next (s_invgen callee)), (reg_id r), (call_details cfg caller callee cid0 r opts proc).
     split; [reflexivity|]. split; [cbn [set_invgen s_id]; exact Hid|]. right.
     exists callee, r. split; [exact Hl|]. split; [apply idgen_next_nowrap; eapply NW; eauto|].
     split; [reflexivity|]. split; [auto|]. split; [eapply select_callee_In; eauto|].
